@@ -46,6 +46,9 @@ class CriticalPathCalculator:
         self.__tasks: Dict[Any, Task] = {}
         self.__end_date = end_date
 
+        tasks = list(tasks)
+        self.__members = set([id(t) for t in tasks])
+
         for t in tasks:
             if end_date is not None:
                 if t.end == end_date:
@@ -62,10 +65,15 @@ class CriticalPathCalculator:
 
         self.__tasks[task.id] = task
 
+        # predecessors of the task and of all its parents bind the task; a predecessor with children
+        # stands for all its leaves; tasks outside the calculated set are ignored
         p_ids = []
-        for p in task.predecessors:
-            p_ids.append(p.id)
-            self.__insert_task(p)
+        for owner in [task] + list(task.all_parents):
+            for pred in owner.predecessors:
+                for p in [pred] + list(pred.all_children):
+                    if len(p.children) == 0 and id(p) in self.__members and p.id not in p_ids:
+                        p_ids.append(p.id)
+                        self.__insert_task(p)
 
         estimate = task.estimate if task.estimate is not None else 0
         spent = task.spent if task.spent is not None else 0
